@@ -61,10 +61,14 @@ theorem reify_scalar (h : Heap) {v : Val} (hv : isScalar v = true) : reify h rei
 theorem reflect_scalar (h : Heap) {v : Val} (hv : isScalar v = true) : reflect h reifyDepth v = (h, v) := by
   cases v <;> first | rfl | (simp [isScalar] at hv)
 
+/-- scalars have nothing to expand: the oracle's structural view of them is complete -/
+theorem expandsWithin_scalar (h : Heap) {v : Val} (hv : isScalar v = true) : expandsWithin h reifyDepth v = true := by
+  cases v <;> first | rfl | (simp [isScalar] at hv)
+
 theorem reifyM_scalar {v : Val} (hv : isScalar v = true) : reifyM v = pure v := by
   funext s
-  show (Except.ok (reify s.heap reifyDepth v), s) = _
-  rw [reify_scalar _ hv]; rfl
+  show (reifyM v).run.run s = _
+  rw [P2sh.Props.RefBvars.run_reifyM, if_pos (expandsWithin_scalar _ hv), reify_scalar _ hv]; rfl
 
 theorem reflectM_scalar {v : Val} (hv : isScalar v = true) : reflectM v = pure v := by
   funext s
